@@ -28,18 +28,21 @@ def main(argv=None):
         if args.replay:
             return replay(mod, args.replay)
         seed = common.seed()
-        roots = mod.roots(args.tier, seed)
-        if args.limit:
-            roots = roots[:args.limit]
-        agg = common.Agg()
-        for out in common.run_roots(mod, roots,
-                                    chunksize=getattr(mod, "CHUNK", None)):
-            agg.add(out)
-        coverage, herr = mod.coverage(agg, args.tier, roots)
+        if hasattr(mod, "execute"):
+            agg, coverage, herr, roots = mod.execute(args.tier, seed, args.limit)
+        else:
+            roots = mod.roots(args.tier, seed)
+            if args.limit:
+                roots = roots[:args.limit]
+            agg = common.Agg()
+            for out in common.run_roots(mod, roots,
+                                        chunksize=getattr(mod, "CHUNK", None)):
+                agg.add(out)
+            coverage, herr = mod.coverage(agg, args.tier, roots)
         for e in herr:
             agg.errors.append((None, "vacuity: " + e))
         # samples: a few actual cases, chosen by the seed
-        if "samples" not in coverage:
+        if "samples" not in coverage and roots:
             k = max(1, len(roots) // 4)
             picks = [roots[(seed * 7 + i * k) % len(roots)] for i in range(3)]
             coverage["samples"] = picks
